@@ -312,6 +312,12 @@ def decide(prop, tier, seed, jobs, meta, extra_results=None):
         if res.verified == 0 and not res.diags:
             tool_problems.append('%s: verus verified 0 functions (vacuous run)' % job.name)
 
+    if extra_results is not None and hasattr(extra_results, 'result'):
+        try:
+            extra_results = extra_results.result()
+        except Exception as e:  # the Kani layer crashed: tool failure, never an alarm
+            tool_problems.append('kani layer crashed: %r' % e)
+            extra_results = None
     kani_fail = []
     if extra_results:
         for er in extra_results:
